@@ -10,6 +10,11 @@ represented by facts (`declaredOversize`, `Payload.rejected`, `stall`, routing r
 
 Layer order in `router` (outermost first): `map_413` · `HandleErrorLayer` · `TimeoutLayer` ·
 `ConcurrencyLimitLayer` · `RequestBodyLimitLayer` · route / method router / fallback.
+
+`respond` is the code as it exists after `fix: answer unknown paths and wrong methods with the
+structured error body` (378f311): the response middleware rewrites the router's own 404 / 405
+(no `Content-Type`) into the error body.  `respondLegacy` keeps the behaviour before that
+commit (empty bodies) as documentation of the original defect.
 -/
 namespace SL.Http
 
@@ -97,6 +102,7 @@ inductive Kind
   | addFailed | addJoin | missingOrInvalidInput | deleteFailed
   | commitJoin | commitFailed | refreshJoin | refreshFailed | compactJoin | compactFailed
   | searchJoin | searchFailed
+  | notFound | methodNotAllowed
 deriving Repr, DecidableEq
 
 structure Resp where
@@ -182,8 +188,17 @@ def handler (e : Endpoint) (f : Facts) : Resp :=
   | .inspect => requireIndex f okResp
   | .stats => requireIndex f okResp
 
-/-- the whole service: body-limit layer, then routing, then the handler -/
+/-- the whole service: body-limit layer, then routing, then the handler; the router's own
+answers for unknown paths and wrong methods are rewritten by `map_413` into the error body -/
 def respond (r : Route) (f : Facts) : Resp :=
+  if f.declaredOversize then errResp 413 .bodyTooLarge
+  else match r with
+    | .unknownPath => errResp 404 .notFound
+    | .wrongMethod _ => errResp 405 .methodNotAllowed
+    | .hit e => handler e f
+
+/-- the service before 378f311: axum's fallback and method router answered with empty bodies -/
+def respondLegacy (r : Route) (f : Facts) : Resp :=
   if f.declaredOversize then errResp 413 .bodyTooLarge
   else match r with
     | .unknownPath => ⟨404, .empty, .none⟩
